@@ -15,8 +15,8 @@ using namespace sim;
 
 namespace {
 
-static const char *kUsers[] = { "alice", "bob", "mallory" };
-static const char *kPasswords[] = { "alice-secret", "bob-secret", "mallory-secret" };
+static const char *kUsers[] = { "alice", "bob", "mallory", "ghost" };   // "ghost" is not known to the password checker
+static const char *kPasswords[] = { "alice-secret", "bob-secret", "mallory-secret", "" };
 
 struct PendingReply {
     QPointer<QXmppPasswordReply> reply;
@@ -65,6 +65,31 @@ public:
         }
         pending.append({ reply, *currentConn, exchangeOf->value(*currentConn), request.username(), known, true });
         return reply;
+    }
+    bool hasGetPassword() const override { return true; }
+};
+
+// The other flavour: only getPassword() is provided, checkPassword()/getDigest() are the library's own default
+// implementations (their replies finish through a zero timer, which the scheduler fires).
+class BasePasswordChecker : public QXmppPasswordChecker
+{
+public:
+    std::function<void(const QString &user, const QString &presentedPassword, bool known, const QString &secret)> onLookup;
+    QXmppPasswordReply::Error getPassword(const QXmppPasswordRequest &request, QString &password) override
+    {
+        for (int i = 0; i < 3; ++i) {
+            if (request.username() == QLatin1String(kUsers[i])) {
+                password = QString::fromLatin1(kPasswords[i]);
+                if (onLookup) {
+                    onLookup(request.username(), request.password(), true, password);
+                }
+                return QXmppPasswordReply::NoError;
+            }
+        }
+        if (onLookup) {
+            onLookup(request.username(), request.password(), false, QString());
+        }
+        return QXmppPasswordReply::AuthorizationError;
     }
     bool hasGetPassword() const override { return true; }
 };
@@ -125,7 +150,7 @@ public:
     QString describe() const override
     {
         return QStringLiteral("real: QXmppServer (routing, addIncomingClient), QXmppIncomingClient, QXmppSaslServer{Plain,DigestMd5,Anonymous}, XmppSocket ; "
-                              "stub: SimSslSocket/SimLink transport, RawClient scripts (incl. pipelining), SimPasswordChecker whose replies complete in scheduler-chosen order and delay ; oracle: server authentication/routing model with origin attribution by unique markers");
+                              "stub: SimSslSocket/SimLink transport, RawClient scripts (incl. pipelining), SimPasswordChecker whose replies complete in scheduler-chosen order and delay, or (30 %) a checker that only provides getPassword() so that the library's default checkPassword()/getDigest() run ; oracle: server authentication/routing model with origin attribution by unique markers");
     }
 
     Plan generate(quint64 seed, const QString &tier) override
@@ -133,6 +158,32 @@ public:
         Plan p;
         Prng r(derive(seed, "c16"));
         p.knobs[QStringLiteral("conns")] = r.range(1, 3);
+        // which password checker: 0 the fully asynchronous one (replies completed by 'pw' ops in any order),
+        // 1 one that only implements getPassword() and relies on the library's default checkPassword()/getDigest()
+        p.knobs[QStringLiteral("baseChecker")] = (qint64)(mix64(seed, 0xc4ec) % 100 < 30);
+        if (r.chance(0.25)) {
+            // a complete DIGEST-MD5 login attempt carried through step by step (known user with the right / a wrong password,
+            // or an account the checker does not know, with the empty password), then bind and a stanza to the victim
+            const qint64 c = r.uniform(3);
+            const qint64 u = r.weighted({ 25, 25, 25, 25 });
+            const qint64 kind = r.weighted({ 60, 40 });
+            auto add = [&](const QString &k, QVector<qint64> a) { p.ops.append(mkop(k, a, {}, (quint32)r.next())); };
+            add(QStringLiteral("open"), { c, 0 });
+            add(QStringLiteral("pump"), {});
+            add(QStringLiteral("auth"), { c, 1, u, 0, 0 });
+            add(QStringLiteral("pump"), {});
+            add(QStringLiteral("response"), { c, kind, u });
+            add(QStringLiteral("pump"), {});
+            add(QStringLiteral("pw"), { 0 });
+            add(QStringLiteral("pump"), {});
+            add(QStringLiteral("response"), { c, 2, u });
+            add(QStringLiteral("pump"), {});
+            add(QStringLiteral("open"), { c, 0 });
+            add(QStringLiteral("bind"), { c, 0 });
+            add(QStringLiteral("pump"), {});
+            add(QStringLiteral("stanza"), { c, 0, 0, 0 });
+            add(QStringLiteral("pump"), {});
+        }
         const int n = (int)r.range(3, tier == QLatin1String("thorough") ? 40 : 24);
         for (int i = 0; i < n; ++i) {
             const qint64 c = r.uniform(3);
@@ -143,10 +194,10 @@ public:
                 break;
             case 1:
                 // mechanism (0 PLAIN, 1 DIGEST-MD5, 2 ANONYMOUS, 3 unknown), user, credential kind (0 right, 1 wrong, 2 malformed), sasl version
-                p.ops.append(mkop(QStringLiteral("auth"), { c, r.weighted({ 60, 25, 8, 7 }), (qint64)r.uniform(3), r.weighted({ 45, 40, 15 }), (qint64)r.chance(0.3) }, {}, salt));
+                p.ops.append(mkop(QStringLiteral("auth"), { c, r.weighted({ 60, 25, 8, 7 }), (qint64)r.weighted({ 30, 30, 30, 10 }), r.weighted({ 45, 40, 15 }), (qint64)r.chance(0.3) }, {}, salt));
                 break;
             case 2:
-                p.ops.append(mkop(QStringLiteral("response"), { c, r.weighted({ 50, 35, 15 }), (qint64)r.uniform(3) }, {}, salt));
+                p.ops.append(mkop(QStringLiteral("response"), { c, r.weighted({ 50, 35, 15 }), (qint64)r.weighted({ 30, 30, 30, 10 }) }, {}, salt));
                 break;
             case 3:
                 p.ops.append(mkop(QStringLiteral("abort"), { c }, {}, salt));
@@ -204,7 +255,9 @@ public:
             QVector<int> exchangeOf(4, 0);
             checker.currentConn = &currentConn;
             checker.exchangeOf = &exchangeOf;
-            server.setPasswordChecker(&checker);
+            BasePasswordChecker baseChecker;
+            const bool useBase = plan.knob(QStringLiteral("baseChecker")) == 1;
+            server.setPasswordChecker(useBase ? static_cast<QXmppPasswordChecker *>(&baseChecker) : &checker);
             QStringList connectedJids;
             QObject::connect(&server, &QXmppServer::clientConnected, &ctx, [&](const QString &jid) {
                 connectedJids << jid;
@@ -411,7 +464,38 @@ public:
                     }
                 }
             };
+            baseChecker.onLookup = [&](const QString &user, const QString &presented, bool known, const QString &secret) {
+                if (currentConn < 0) {
+                    return;
+                }
+                Conn &c = *conns[currentConn];
+                bool approve = false;
+                if (known) {
+                    if (!presented.isEmpty()) {
+                        approve = presented == secret;                 // PLAIN: the checker compares the presented password
+                    } else {
+                        approve = c.validDigestUsers.contains(user);   // digest lookup: a response computed with the real password was written
+                    }
+                }
+                tr.log(QStringLiteral("checker(base): lookup for conn %1 user '%2' known=%3 -> model approves=%4").arg(currentConn).arg(user).arg(known).arg(approve));
+                if (approve) {
+                    c.approvedUsers.insert(user);
+                }
+            };
             auto completeReply = [&](int k) {
+                if (useBase) {
+                    // the default checkPassword()/getDigest() finish their replies through a zero timer
+                    auto *disp = Dispatcher::instance();
+                    const int due = disp->dueCount();
+                    if (due > 0) {
+                        disp->fireOneDue(k % due);
+                        settle();
+                        for (int kx = 0; kx < 4; ++kx) {
+                            examine(kx);
+                        }
+                    }
+                    return;
+                }
                 if (checker.pending.isEmpty()) {
                     return;
                 }
@@ -481,7 +565,7 @@ public:
                     if (c.opened) {
                         static const char *mechs[] = { "PLAIN", "DIGEST-MD5", "ANONYMOUS", "X-UNKNOWN" };
                         const QString mech = QString::fromLatin1(mechs[op.arg(1) % 4]);
-                        const int u = (int)(op.arg(2) % 3);
+                        const int u = (int)(op.arg(2) % 4);
                         c.exchange++;
                         exchangeOf[ci] = c.exchange;
                         c.exchangeMech = mech;
@@ -508,7 +592,7 @@ public:
                 } else if (k == QLatin1String("response")) {
                     if (c.opened) {
                         // kind: 0 DIGEST-MD5 response with the right password, 1 with a wrong one, 2 empty response
-                        const int u = (int)(op.arg(2) % 3);
+                        const int u = (int)(op.arg(2) % 4);
                         QByteArray data;
                         if (op.arg(1) != 2) {
                             const QByteArray user = kUsers[u], realm = "example.org", nonce = c.nonce.toLatin1(), cnonce = "cn" + QByteArray::number((int)r.uniform(100000)), nc = "00000001", uri = "xmpp/example.org";
@@ -632,7 +716,7 @@ public:
                 c.pipelining = false;
             }
             pumpAll();
-            for (int guard = 0; guard < 50 && !checker.pending.isEmpty(); ++guard) {
+            for (int guard = 0; guard < 50 && (useBase ? Dispatcher::instance()->dueCount() > 0 : !checker.pending.isEmpty()); ++guard) {
                 completeReply(0);
                 pumpAll();
             }
@@ -642,7 +726,9 @@ public:
                 bool ok = false;
                 for (int ci = 0; ci < 4; ++ci) {
                     const Conn &c = *conns[ci];
-                    if (modelAuthed(c) && c.approvedUsers.contains(user) && c.boundJids.contains(jid)) {
+                    // the announcement may concern a connection that has meanwhile gone (reply of the checker after the
+                    // disconnect): what the property asks is that the checker approved that user on some connection
+                    if (c.approvedUsers.contains(user)) {
                         ok = true;
                     }
                 }
